@@ -1,7 +1,7 @@
 /-
   MultiModel.Ledger — resource discipline of the owning arrays (`multi::static_array`, `multi::array`):
   transcription of include/boost/multi/array.hpp (array_allocator 42-113; static_array constructors, destructor,
-  clear, deallocate 167-592; array special members 1220-1517) and of the rollback handlers of
+  clear, deallocate 167-645; array special members 1285-1625; line numbers as of /repo commit ecc6b21) and of the rollback handlers of
   include/boost/multi/detail/adl.hpp:199-465, as sequences of *micro-steps* over
 
     * a heap of blocks `{alloc, size, cells}` with cell state raw | live,
@@ -219,7 +219,7 @@ def destroyAll (c : Cfg) (base : Option Nat) (n : Nat) : M Unit :=
   | none => ub
   | some b => destroyBack b n
 
-/-- `static_array::deallocate()` array.hpp:554-559: `if(num_elements()) allocator_traits::deallocate(alloc(), base_, num_elements())` -/
+/-- `static_array::deallocate()` array.hpp:607-612: `if(num_elements()) allocator_traits::deallocate(alloc(), base_, num_elements())` -/
 def deallocate (c : Cfg) (a : AllocId) (base : Option Nat) (n : Nat) : M Unit := fun s =>
   if n = 0 then .ok () s else
   match base with
@@ -241,7 +241,7 @@ def destroyFwd (b : Nat) : (count first : Nat) → M Unit
 /-- `alloc_uninitialized_{copy,move,fill,value_construct,default_construct}_n(alloc, …, count, p)` adl.hpp:199-465:
     construct cells `cur, cur+1, …` in order; if a construction throws, destroy `[first cur, cur)` and rethrow.
     For the flat algorithms `first = 0` (everything built so far).  The nested `uninitialized_copy(In, In, array_iterator<T, N>)`
-    for N > 1 (array_ref.hpp:3770-3780) runs one flat copy per innermost row and has no handler of its own: only the
+    for N > 1 (array_ref.hpp:3789-3815) runs one flat copy per innermost row and has no handler of its own: only the
     row in which the throw happens is rolled back, `first cur = cur - cur % rowLen`. -/
 def constructN (c : Cfg) (b : Nat) (first : Nat → Nat) : (count cur : Nat) → M Unit
   | 0, _ => pure ()
@@ -332,7 +332,7 @@ def buildSafe (c : Cfg) (a : AllocId) (n : Nat) (construct : Bool) : M (Option N
   if construct then tryCatch (constructAll c p n) (do deallocate c a p n; rethrow)
   pure p
 
-/-- "allocate in the mem-initialiser, construct the elements in the body" (array.hpp:257-538): returns the base pointer.
+/-- "allocate in the mem-initialiser, construct the elements in the body" (array.hpp:273-566): returns the base pointer.
     As the code stood, an exception from the body left the block allocated (the destructor of a not fully constructed
     object does not run).  `fx6`: the body is wrapped in `construct_or_deallocate_` (array.hpp:199-213), and the nested
     `uninitialized_copy` (array_ref.hpp) rolls back completed rows. -/
@@ -342,7 +342,7 @@ def build (c : Cfg) (a : AllocId) (n : Nat) (construct : Bool) (rowLen : Nat := 
     if construct then constructAll c p n rowLen
     pure p
 
-/-- `clear()` array.hpp:560-565: destroy, deallocate, layout := empty (base_ is left as it is) -/
+/-- `clear()` array.hpp:613-618: destroy, deallocate, layout := empty (base_ is left as it is) -/
 def clearArr (c : Cfg) (i : Nat) (x : Arr) : M Arr := do
   destroyAll c x.base x.n
   deallocate c x.alloc x.base x.n
@@ -350,7 +350,7 @@ def clearArr (c : Cfg) (i : Nat) (x : Arr) : M Arr := do
   setSlot i (some x')
   pure x'
 
-/-- `~static_array()` array.hpp:587-592 -/
+/-- `~static_array()` array.hpp:640-645 -/
 def dtorArr (c : Cfg) (i : Nat) (x : Arr) : M Unit := do
   destroyAll c x.base x.n
   deallocate c x.alloc x.base x.n
@@ -414,7 +414,7 @@ def ctorWith (c : Cfg) (i : Nat) (a : AllocId) (es : List Ext) (construct : Bool
   let p ← build c a n construct rowLen
   setSlot i (some ⟨a, p, reported es, n⟩)
 
-/-- move assignment array.hpp:1296-1309 (noexcept): `clear(); base_ = other.base_; if(POCMA) alloc = move(other.alloc);
+/-- move assignment array.hpp:1343-1356 (noexcept): `clear(); base_ = other.base_; if(POCMA) alloc = move(other.alloc);
     layout = exchange(other.layout, {})` -/
 def moveAssignFrom (c : Cfg) (i : Nat) (x : Arr) (srcAlloc : AllocId) (p : Option Nat) (ext : List Ext) (n : Nat) : M Unit := do
   let x' ← clearArr c i x
@@ -428,14 +428,14 @@ def assignFromTemp (c : Cfg) (i : Nat) (x : Arr) (es : List Ext) (rowLen : Nat :
   let p ← build c ta n true rowLen
   noexcept (moveAssignFrom c i x ta p (reported es) n)
 
-/-- `array(allocator)` array.hpp:207 -/
+/-- `static_array(allocator_type const&)` array.hpp:223 -/
 def opCtorDefault (c : Cfg) (i : Nat) (a : AllocId) : M Unit := setSlot i (some (emptyArr c a))
 
 /-- the allocator of an allocator-extended constructor, else the one the plain constructor derives from its source -/
 def pickAlloc (a : Option AllocId) (dflt : AllocId) : AllocId := a.getD dflt
 
-/-- copy constructor array.hpp:499-514 (`alloc = select_on_container_copy_construction(other.alloc())`) and the
-    allocator-extended copy constructor array.hpp:294-307 -/
+/-- copy constructor `static_array(static_array const&)` array.hpp:541-558 (`alloc = select_on_container_copy_construction(other.alloc())`) and the
+    allocator-extended copy constructor `static_array(array_ref const&, allocator_type const&)` array.hpp:310-325 -/
 def opCtorCopy (c : Cfg) (i j : Nat) (a : Option AllocId) : M Unit := do
   let s ← get
   match getArr s j with
@@ -446,7 +446,7 @@ def opCtorCopy (c : Cfg) (i j : Nat) (a : Option AllocId) : M Unit := do
     let p ← build c al y.n true
     setSlot i (some ⟨al, p, reported y.ext, y.n⟩)
 
-/-- construction from a view array.hpp:381-395 -/
+/-- construction from a view `static_array(const_subarray const&, allocator_type const&)` array.hpp:402-420 -/
 def opCtorView (c : Cfg) (i j : Nat) (a : AllocId) (sl : Option (Int × Int)) : M Unit := do
   let s ← get
   match getArr s j with
@@ -456,7 +456,7 @@ def opCtorView (c : Cfg) (i j : Nat) (a : AllocId) (sl : Option (Int × Int)) : 
     readCells c y.base (nElems es)
     ctorWith c i a es true
 
-/-- iterator-pair constructor array.hpp:257-275 -/
+/-- iterator-pair constructor `static_array(It, It, allocator_type const&)` array.hpp:273-295 -/
 def opCtorRange (c : Cfg) (i j : Nat) (a : AllocId) : M Unit := do
   let s ← get
   match getArr s j with
@@ -465,8 +465,8 @@ def opCtorRange (c : Cfg) (i j : Nat) (a : AllocId) : M Unit := do
     readCells c y.base y.n
     ctorWith c i a (rangeExts c y) true (rangeRowLen y)
 
-/-- move constructor array.hpp:1283 and allocator-extended move constructor array.hpp:1280, both through
-    `static_array(decay_type&&, allocator_type const&)` array.hpp:249-252: the block is adopted, the source emptied -/
+/-- move constructor array.hpp:1323 and allocator-extended move constructor array.hpp:1320, both through
+    `static_array(decay_type&&, allocator_type const&)` array.hpp:258-261: the block is adopted, the source emptied -/
 def opCtorMove (c : Cfg) (i j : Nat) (a : Option AllocId) : M Unit := do
   let s ← get
   match getArr s j with
@@ -487,7 +487,7 @@ def opClear (c : Cfg) (i : Nat) : M Unit := do
   | none => ub
   | some x => noexcept (do let _ ← clearArr c i x; pure ())
 
-/-- copy assignment array.hpp:1318-1337 (same extents: `static_array::operator=` array.hpp:682-690) -/
+/-- copy assignment `array::operator=(array const&)` array.hpp:1358-1391 (same extents: `static_array::operator=` array.hpp:728-737) -/
 def opAssignCopy (c : Cfg) (i j : Nat) : M Unit := do
   let s ← get
   match getArr s i, getArr s j with
@@ -515,7 +515,7 @@ def opAssignCopy (c : Cfg) (i j : Nat) : M Unit := do
         constructAll c p y.n
   | _, _ => ub
 
-/-- move assignment array.hpp:1303-1316 -/
+/-- move assignment `array::operator=(array&&)` array.hpp:1343-1356 -/
 def opAssignMove (c : Cfg) (i j : Nat) : M Unit := do
   let s ← get
   match getArr s i, getArr s j with
@@ -525,7 +525,7 @@ def opAssignMove (c : Cfg) (i j : Nat) : M Unit := do
       setSlot j (some { y with ext := emptyExts c.dim, n := 0 })
   | _, _ => ub
 
-/-- `swap` array.hpp:1289-1300 -/
+/-- `array::swap` array.hpp:1329-1340 -/
 def opSwap (c : Cfg) (i j : Nat) : M Unit := do
   let s ← get
   match getArr s i, getArr s j with
@@ -535,7 +535,7 @@ def opSwap (c : Cfg) (i j : Nat) : M Unit := do
       setSlot j (some ⟨if c.pocs then x.alloc else y.alloc, x.base, x.ext, x.n⟩)
   | _, _ => ub
 
-/-- `reextent(extensions) &` array.hpp:1468-1500 and `reextent(extensions, elem) &` array.hpp:1505-1540 -/
+/-- `reextent(extensions) &` array.hpp:1549-1584 and `reextent(extensions, elem) &` array.hpp:1586-1625; `release_` array.hpp:1515-1524 -/
 def opReextent (c : Cfg) (i : Nat) (es : List Ext) (fill : Bool) : M Unit := do
   let s ← get
   match getArr s i with
@@ -561,7 +561,7 @@ def opReextent (c : Cfg) (i : Nat) (es : List Ext) (fill : Bool) : M Unit := do
       deallocate c x.alloc x.base x.n
       setSlot i (some { x with base := p, ext := reported es, n := n })
 
-/-- `reextent(extensions) &&` array.hpp:1449-1466 -/
+/-- `reextent(extensions) &&` array.hpp:1527-1547 -/
 def opReextentRv (c : Cfg) (i : Nat) (es : List Ext) : M Unit := do
   let s ← get
   match getArr s i with
@@ -583,14 +583,14 @@ def opReextentRv (c : Cfg) (i : Nat) (es : List Ext) : M Unit := do
       setSlot i (some { x1 with base := p })
       if !c.trivCtor then constructAll c p n
 
-/-- `reshape` array.hpp:1245-1251 -/
+/-- `reshape` array.hpp:1285-1291 -/
 def opReshape (i : Nat) (es : List Ext) : M Unit := do
   let s ← get
   match getArr s i with
   | none => ub
   | some x => if nElems es = x.n then setSlot i (some { x with ext := reported es }) else ub
 
-/-- `assign(extensions, elem)` array.hpp:1410-1430 -/
+/-- `assign(extensions, elem)` array.hpp:1462-1480 -/
 def opAssignFill (c : Cfg) (i : Nat) (es : List Ext) : M Unit := do
   let s ← get
   match getArr s i with
@@ -610,7 +610,7 @@ def opAssignFill (c : Cfg) (i : Nat) (es : List Ext) : M Unit := do
         setSlot i (some { x2 with base := p })
         constructAll c p n
 
-/-- assignment from a view: lvalue view array.hpp:1342-1350; rvalue view array.hpp:1368-1388 -/
+/-- assignment from a view: lvalue view array.hpp:1393-1400; rvalue view (`operator=(Range&&)`) array.hpp:1424-1440 -/
 def opAssignView (c : Cfg) (i j : Nat) (sl : Option (Int × Int)) (lvalue : Bool) : M Unit := do
   let s ← get
   match getArr s i, getArr s j with
@@ -628,7 +628,7 @@ def opAssignView (c : Cfg) (i j : Nat) (sl : Option (Int × Int)) (lvalue : Bool
       assignFromTemp c i x es
   | _, _ => ub
 
-/-- `assign(first, last)` array.hpp:1432-1443 -/
+/-- `assign(first, last)` array.hpp:1483-1494 -/
 def opAssignRange (c : Cfg) (i j : Nat) : M Unit := do
   let s ← get
   match getArr s i, getArr s j with
@@ -650,8 +650,8 @@ def opViewAssign (c : Cfg) (i j : Nat) : M Unit := do
     assignAll c x.base (List.range x.n)
   | _, _ => ub
 
-/-- `static_array s(extensions, elem, alloc); static_array t(std::move(s));` then both destructors: array.hpp:319-324, then
-    the noexcept `static_array(static_array&&)` array.hpp:234-247 (allocates and move-constructs element-wise) -/
+/-- `static_array s(extensions, elem, alloc); static_array t(std::move(s));` then both destructors: array.hpp:336-342, then
+    the noexcept `static_array(static_array&&)` array.hpp:243-256 (allocates and move-constructs element-wise) -/
 def opSaMove (c : Cfg) (a : AllocId) (es : List Ext) : M Unit := do
   let n := nElems es
   let p ← build c a n true
@@ -667,8 +667,8 @@ def opSaMove (c : Cfg) (a : AllocId) (es : List Ext) : M Unit := do
 
 def Op.run (c : Cfg) : Op → M Unit
   | .ctorDefault i a => opCtorDefault c i a
-  | .ctorExt i a es => ctorWith c i a es (!c.trivCtor)        -- array.hpp:369-375, 171-175
-  | .ctorFill i a es => ctorWith c i a es true                -- array.hpp:319-324
+  | .ctorExt i a es => ctorWith c i a es (!c.trivCtor)        -- array.hpp:390-397, 171-175
+  | .ctorFill i a es => ctorWith c i a es true                -- array.hpp:336-342
   | .ctorCopy i j => opCtorCopy c i j none
   | .ctorCopyA i j a => opCtorCopy c i j (some a)
   | .ctorView i j a sl => opCtorView c i j a sl
